@@ -129,6 +129,132 @@ def judge(c, case, must, why, impl, life, obs, where, stats):
         c.drift("cell %s [%s]: spec outcome %s, verifier %s (%s)" % (base, dl, impl, got, obs.get("err")))
 
 
+JW_TMPL = """SPECIFICATION MCSpec
+VIEW {view}
+CONSTANTS
+  Kids = {{"ka", "kb"}}
+  KeyVals = {{"v1", "v2", "v3"}}
+  VARIANT = "{variant}"
+  Depth = {depth}
+  GEN = {gen}
+INVARIANTS ResolvedWasServed FreshOnFetch MissWhenDown RefreshPicksUp ResolvesServed CacheWasServed Emit
+"""
+
+
+def jw_key(h):
+    out = []
+    for st in h:
+        e = st["ev"]
+        out.append({"publish": "pub(%s,%s)" % (e.get("k"), e.get("v")), "withdraw": "wd(%s)" % e.get("k"),
+                    "await": "await(%s)" % e.get("k")}.get(e["kind"], e["kind"]))
+    return " ".join(out)
+
+
+def jw_judge(c, key, spec, real, stats, rep):
+    """P-monitors of JwksStore on one real step; spec = the model's Obs (inputs served/ever/up + expectation)"""
+    o, cache = real["ev"], real["cache"]
+    served, ever, up = spec["served"], spec["ever"], spec["up"]
+    stats["steps"] += 1
+    fetch_reached = False
+    if o.get("timeout"):
+        c.drift("jwks: await/refresh timed out after %s" % key)
+        return
+    if o["kind"] == "await":
+        k, res = o["k"], o["res"]
+        stats["awaits"] += 1
+        if res != "none":
+            stats["resolved"] += 1
+            if res not in ever[k]:
+                c.violation("jwks:resolved-never-served", "kid %s resolved to %s, which the endpoint never served under that kid; history %s" % (k, res, key), rep)
+            if o.get("verifier_accepts") != [res]:
+                c.violation("jwks:verifier-accepts-other-material", "kid %s resolves to %s but the verifier accepts tokens signed with %s; history %s" % (
+                    k, res, o.get("verifier_accepts"), key), rep)
+        if o["fetched"] and up:
+            fetch_reached = True
+            if res != served[k]:
+                c.violation("jwks:stale-after-fetch", "lookup of %s fetched the endpoint but returned %s while %s is served; history %s" % (k, res, served[k], key), rep)
+        if up and served[k] != "none" and res == "none":
+            c.violation("jwks:served-kid-unresolved", "the endpoint is up and serves %s=%s, yet the lookup returned nothing (fetched=%s); history %s" % (
+                k, served[k], o["fetched"], key), rep)
+        if o["fetched"] and not up and res != "none":
+            c.violation("jwks:resolved-while-down", "a cache miss for %s resolved to %s although the endpoint is down; history %s" % (k, res, key), rep)
+    if o["kind"] == "refresh":
+        fetch_reached = up
+        if o.get("resolved_unknown_kid"):
+            c.violation("jwks:unknown-kid-resolved", "a kid nobody serves resolved to a key; history %s" % key, rep)
+    if fetch_reached:
+        stats["fetches"] += 1
+        bad = {k: (cache[k], v) for k, v in served.items() if v != "none" and cache[k] != v}
+        if bad:
+            c.violation("jwks:rotation-not-picked-up", "after a fetch cycle the cache holds %s (cache, served); history %s" % (bad, key), rep)
+    for k, v in cache.items():
+        if v != "none" and v not in ever[k]:
+            c.violation("jwks:cache-never-served", "cache holds %s for %s which was never served under that kid; history %s" % (v, k, key), rep)
+    # conformance
+    mism = []
+    if cache != spec["cache"]:
+        mism.append("cache %s vs spec %s" % (cache, spec["cache"]))
+    if o["kind"] == "await" and (o["res"] != spec["ev"]["res"] or bool(o["fetched"]) != bool(spec["ev"]["fetched"])):
+        mism.append("await -> %s fetched=%s vs spec %s fetched=%s" % (o["res"], o["fetched"], spec["ev"]["res"], spec["ev"]["fetched"]))
+    if mism:
+        stats["mismatch"] += 1
+        c.drift("jwks after %s: %s" % (key, "; ".join(mism)))
+
+
+def jwks_growth(c, thorough):
+    """Growth (DESIGN.md 6.6): JWKS key store refresh / rotation, spec/Snap/JwksStore.tla"""
+    jb = c.cargo_build("vh-snap", bin="snapjwks")
+    r = c.tlc(SD, "MC_JwksStore", cfg=cfg(c, "jw_full.cfg", JW_TMPL.format(view="MCViewU", variant="code", depth=1000000, gen="FALSE")), timeout=2400)
+    for inv in r.violated:
+        c.violation("spec:jwks:%s" % inv, "design-level: %s violated on MC_JwksStore (see %s)" % (inv, r.out_path), {"tlc_out": r.out_path})
+    if r.ok:
+        c.require_coverage(r, ["MCPublish", "MCWithdraw", "MCToggle", "MCAwait", "MCRefresh"])
+    for variant in ("keepold", "fallback", "nowait"):
+        r0 = c.tlc(SD, "MC_JwksStore", cfg=cfg(c, "jw_%s.cfg" % variant, JW_TMPL.format(view="MCView", variant=variant, depth=5, gen="FALSE")),
+                   expect_violation=True, coverage=False, keep_printed=False)
+        if not r0.violated:
+            c.fail_tool("oracle self-check failed: JwksStore variant '%s' is not refuted" % variant)
+    r = c.tlc(SD, "MC_JwksStore", cfg=cfg(c, "jw_gen.cfg", JW_TMPL.format(view="MCView", variant="code", depth=5 if thorough else 4, gen="TRUE")),
+              timeout=2400, coverage=False)
+    hs = c.printed_json(r, "REPLAY")
+    if not hs:
+        c.fail_tool("MC_JwksStore printed no histories")
+    inp, outp = os.path.join(c.work, "jw_in.ndjson"), os.path.join(c.work, "jw_out.ndjson")
+    write_ndjson(inp, [{"ev": "meta", "kids": ["ka", "kb"], "vals": ["v1", "v2", "v3"]}] + [{"h": h} for h in hs])
+    rc, so = c.sh([jb, "replay", inp, outp], timeout=3400)
+    if rc != 0:
+        c.fail_tool("snapjwks replay failed rc=%s %s" % (rc, getattr(c, "last_stderr", "")[-400:]))
+    outs = read_ndjson(outp)
+    stats = {"steps": 0, "awaits": 0, "resolved": 0, "fetches": 0, "mismatch": 0}
+    for h, o in zip(hs, outs):
+        si = len(h) - 1
+        if len(o["steps"]) > si:
+            jw_judge(c, jw_key(h), h[si], o["steps"][si], stats, {"kids": ["ka", "kb"], "vals": ["v1", "v2", "v3"], "h": h, "real": o["steps"]})
+    c.cov["jwks"] = dict(stats, histories=len(hs), states=r.distinct)
+    c.cov["replayed"] += len(hs)
+    c.cov["evaluations"] += stats["steps"]
+    # recorded random histories -> Trace_JwksStore
+    ev, summ = os.path.join(c.work, "jw_trace.ndjson"), os.path.join(c.work, "jw_trace.json")
+    runs, ln = (100, 150) if thorough else (20, 100)
+    rc, so = c.sh([jb, "record", ev, summ], env={"VERIF_RUNS": runs, "VERIF_LEN": ln}, timeout=3400)
+    if rc != 0:
+        c.fail_tool("snapjwks record failed rc=%s" % rc)
+    rt = c.tlc(SD, "Trace_JwksStore", mode="trace", env={"TRACE": ev}, timeout=3400)
+    if rt.violated:
+        for inv in rt.violated:
+            c.violation("jwks:trace:%s" % inv, "P-invariant %s of JwksStore violated on a recorded history of the real key store (TLC output %s)" % (inv, rt.out_path),
+                        {"trace": ev, "tlc_out": rt.out_path, "seed": c.seed})
+    elif rt.postcondition_failed or not rt.ok:
+        c.fail_tool("Trace_JwksStore did not consume the whole trace (see %s)" % rt.out_path)
+    dr = list({d["line"]: d for d in c.printed_json(rt, "DRIFT")}.values())
+    for d in dr[:10]:
+        c.drift("jwks recorded line %s (%s): observed %s cache %s, predicted %s" % (d["line"], d["what"], json.dumps(d["o"]), json.dumps(d["observed_cache"]), json.dumps(d["predicted"])))
+    c.cov["drift"] += max(0, len(dr) - 10)
+    js = json.load(open(summ))
+    c.cov["jwks"]["trace"] = js
+    c.cov["evaluations"] += js["runs"] * js["len"]
+
+
 def run(c):
     thorough = c.tier == "thorough"
     binp = c.cargo_build("vh-snap", bin="snaptoken")
@@ -145,6 +271,22 @@ def run(c):
     if c.replay:
         # re-run one stored counterexample: the cell of the replay file is concretised again and judged
         rp = json.load(open(c.replay))["replay"]
+        if "h" in rp:
+            # a history of the JWKS key store (growth): re-run it on the real JwksKeyStore and judge every step
+            jb = c.cargo_build("vh-snap", bin="snapjwks")
+            inp, outp = os.path.join(c.work, "one.ndjson"), os.path.join(c.work, "one_out.ndjson")
+            write_ndjson(inp, [{"ev": "meta", "kids": rp["kids"], "vals": rp["vals"]}, {"h": rp["h"]}])
+            rc, so = c.sh([jb, "replay", inp, outp], timeout=600)
+            if rc != 0:
+                c.fail_tool("snapjwks replay failed rc=%s" % rc)
+            st = {"steps": 0, "awaits": 0, "resolved": 0, "fetches": 0, "mismatch": 0}
+            real = read_ndjson(outp)[0]["steps"]
+            for si, (spec_, rl) in enumerate(zip(rp["h"], real)):
+                c.log("step %d %s: real %s cache %s" % (si, jw_key(rp["h"][si:si + 1]), json.dumps(rl["ev"]), json.dumps(rl["cache"])))
+                jw_judge(c, jw_key(rp["h"][:si + 1]), spec_, rl, st, {"h": rp["h"], "real": real})
+            c.cov["replayed"] = 1
+            c.cov["evaluations"] = st["steps"]
+            return
         r = c.tlc(SD, "MC_SnapToken", cfg=cfg(c, "mc_meta.cfg", MC_TMPL.format(nbf="TRUE", depth=0, hotfrom=3, gen="TRUE")), coverage=False)
         meta = c.printed_json(r, "META")
         cell = {"case": rp["case"], "must": rp["must"], "why": rp["why"], "impl": None, "life": 0}
@@ -285,3 +427,6 @@ def run(c):
     c.cov["evaluations"] += res["n"]
     c.cov["trace_stats"] = dict(res, decided_by_P=decided)
     c.sample({"trace_event": "string -> features by independent extractor + verdict; see spec/Snap/Trace_SnapToken.tla"})
+
+    # ---- 4. growth: the JWKS key store behind "JWKS-resolved key" ------------------------------------
+    jwks_growth(c, thorough)
